@@ -65,7 +65,7 @@ fn budget(t: Tier) -> u64 {
     let n = grid().len() as u64 * 2;
     match t {
         Tier::Quick => n * 10,
-        Tier::Thorough => n * 60,
+        Tier::Thorough => n * 600,
     }
 }
 
